@@ -746,7 +746,8 @@ XBuiltin(nm, a, s) ==
               \* break 0: error status 1 and the loop is left (the code: ignored)
               IF D(s, "Dev_BreakZero") THEN Trig(St(s, 0), "Dev_BreakZero")
               ELSE [s EXCEPT !.ctl = "b", !.n = s.ld, !.st = 1]
-         ELSE [s EXCEPT !.ctl = IF nm = W_break THEN "b" ELSE "c", !.n = n, !.st = 0]
+         \* a count larger than the number of enclosing loops acts on the outermost loop
+         ELSE [s EXCEPT !.ctl = IF nm = W_break THEN "b" ELSE "c", !.n = IF n > s.ld THEN s.ld ELSE n, !.st = 0]
     [] nm = W_set -> XSet(a, s)
     [] nm = W_shift ->
          LET c == CountArg(a, s)
